@@ -242,6 +242,28 @@ def c33_plans(nodes, rich):
     return plans
 
 
+def fam_c34_multipanic(pars):
+    """Two panicking queries in one Run.  Siblings (both panic although the first panic cancels the Run) are ordinary
+    cases of the model.  Nested (Outer resolves Inner, Inner panics, then Outer panics too) needs queries that panic
+    even after Resolve returned the cancellation error: those are replayed on the real executor only, with the
+    expectations of the statement (Run returns a panic error, nothing derived is memoised, permits free, no hang)."""
+    leaves = {"a": [], "b": [], "c": []}
+    sib, nested = [], []
+    for par in pars:
+        for roots in (NODES3, list(reversed(NODES3))):
+            if par >= 2:
+                sib.append({"bat": leaves, "pan": ["a", "b"], "par": par, "plan": [runop(roots), runop(roots)]})
+                sib.append({"bat": leaves, "pan": ["a", "b", "c"], "par": par, "plan": [runop(roots), runop(roots)]})
+                sib.append({"bat": batchings(SHAPES3["fanout"], ["one"])[0], "pan": ["b", "c"], "par": par,
+                            "plan": [runop(["a"]), runop(roots)]})
+        for g, pan in ((SHAPES3["chain"], ["a", "b"]), (SHAPES3["chain"], ["b", "c"]), (SHAPES3["chain"], ["a", "b", "c"]),
+                       (SHAPES3["diamond"], ["a", "c"]), (SHAPES3["fanout"], ["a", "b"]), (SHAPES3["fanin"], ["a", "c"])):
+            for bv in ("one", "single"):
+                for roots in (["a"], NODES3, list(reversed(NODES3))):
+                    nested.append({"bat": batchings(g, [bv])[0], "pan": pan, "par": par, "plan": [runop(roots), runop(roots)]})
+    return dedup(sib), dedup(nested)
+
+
 def dedup(cases):
     seen, out = set(), []
     for c in cases:
@@ -319,20 +341,43 @@ def drive(wd, binary, name, cases, reps, verdict, acc, trace=True, max_traces=No
         if max_traces:
             args += ["-maxtraces", str(max_traces)]
     rc, _out, err = vf.run_driver(binary, args, timeout=3000)
+    crashed = None
     if rc != 0:
-        raise vf.MachineryError("incexec driver failed rc=%s: %s" % (rc, err[-3000:]))
+        # A panic of a query that the executor fails to recover on one of its own goroutines kills the driver
+        # process.  That is behaviour of the code under test (C34: a panic surfaces as an error), not a machinery
+        # failure - but only when the panic is the deliberate panic of a driver query ("boom:<node>") or was raised
+        # inside experimental/incremental; anything else is a harness failure.
+        first = err[err.index("panic:"):][:1500] if "panic:" in err else ""
+        stack = first.split("goroutine ", 1)[1] if "goroutine " in first else ""
+        frames = [l for l in stack.splitlines() if l and not l.startswith(("\t", " ")) and "(" in l]
+        in_code = first.startswith("panic: boom:") or (
+            frames[:3] and any("experimental/incremental." in f for f in frames[:3])
+            and not any("zzverif" in f for f in frames[:3]))
+        if not in_code:
+            raise vf.MachineryError("incexec driver failed rc=%s: %s" % (rc, err[-3000:]))
+        crashed = first
     for line in err.splitlines():
         if line.startswith("STATS"):
             kv = dict(x.split("=") for x in line.split()[1:])
             acc.traces += int(kv["traces"])
             acc.events += int(kv["events"])
-    for res in vf.jsonl_read(rpath):
+    results = vf.jsonl_read(rpath) if os.path.exists(rpath) else []
+    if crashed is not None:
+        done = {(r["id"], r["rep"]) for r in results}
+        nxt = next(((c["id"], rep) for c in cases for rep in range(reps) if (c["id"], rep) not in done), None)
+        case = cases[(nxt[0] if nxt else cases[-1]["id"]) - 1]
+        verdict.disagree("crash:unrecovered-panic",
+                         {"cfg": case["cfg"], "exp": case["exp"], "order": case["order"],
+                          "panic_always": case.get("panic_always", False), "step": 0},
+                         "the process died with an unrecovered panic while this case was executing: " + crashed[:600])
+    for res in results:
         acc.executions += 1
         acc.hangs += 1 if res.get("hang") else 0
         case = cases[res["id"] - 1]
         for m in res.get("mismatches") or []:
             verdict.disagree(m["class"], {"cfg": case["cfg"], "exp": case["exp"], "order": case["order"],
-                                          "hold": case.get("hold", ""), "step": m["step"]}, m["detail"])
+                                          "hold": case.get("hold", ""), "panic_always": case.get("panic_always", False),
+                                          "step": m["step"]}, m["detail"])
     acc.cases += len(cases)
     for c in cases:
         acc.features.add(feature(c))
@@ -495,7 +540,8 @@ def run(pid, tier, replay=None):
         for e in rep["examples"]:
             c = e["case"]
             if c.get("cfg") and c.get("exp"):
-                cases.append({"cfg": c["cfg"], "exp": c["exp"], "order": c["order"]})
+                cases.append({"cfg": c["cfg"], "exp": c["exp"], "order": c["order"],
+                              "panic_always": c.get("panic_always", False)})
             elif c.get("cfg"):
                 bare.append(c)                       # a rejected trace: expectations are recomputed by the oracle
         for c in bare:
@@ -521,6 +567,13 @@ def run(pid, tier, replay=None):
         exported.append((name, nodes, got))
     for name, nodes, cases in ro:
         exported.append((name, nodes, export_cases(wd, name, nodes, cases)))
+    if pid == "C34":
+        sib, nested = fam_c34_multipanic((1, 2, 3) if thorough else (1, 2))
+        got = export_cases(wd, "c34multi", NODES3, sib + nested)
+        for c in got:
+            if c["cfg"]["id"] > len(sib):          # TLC exports in its own order: cfg.id is the position in sib + nested
+                c["panic_always"] = True
+        exported.append(("c34multi", NODES3, got))
     # 2. direction A (+ recording for B): every exported case on the real executor
     reps = 3 if thorough else 2
     trace_budget = 50000 if thorough else 3500     # events validated by TLC (about 1000 / s)
